@@ -262,6 +262,7 @@ def run(ctx, rep):
     wal_rules.r02h(ctx, rep, ['TensorWal'])
     wal_rules.r02i(ctx, rep, ['TensorWal'])
     wal_rules.r02j(ctx, rep, ['TensorWal'])
+    wal_rules.r02k(ctx, rep, ['TensorWal'])
     if ctx.tier == 'thorough':
         wal_rules.r02b(ctx, rep, ['RaftWal', 'TxWal'])
         wal_rules.r02e(ctx, rep, ['RaftWal', 'TxWal'])
